@@ -13,5 +13,5 @@ CONSTANTS
   Hyg = TRUE
 VIEW View
 INVARIANTS FoldEq LayerB Contiguous ScannedExact NoneLost BelowBirthday NoOpenAdjacent ChainedIsUnion SameAsLayerA
-PROPERTIES ScanCovers TipMonotone PruneLaw
+PROPERTIES ScanCovers TipMonotone PruneLaw RewindLaw
 CHECK_DEADLOCK FALSE
